@@ -141,7 +141,11 @@ fn build(input: &str, copies: usize, k: usize, r: &mut Rng, c: &Ctxt) -> Option<
                     auth(&good_cred, &signed, PLACEHOLDER)
                 } else {
                     // the other copies: SigV4 headers that cannot verify, or headers of another scheme altogether
-                    match r.below(10) {
+                    match r.below(13) {
+                        // (a later line that begins with parameters instead of a scheme is no continuation of the first)
+                        10 => format!("Signature={}", BAD_SIG),
+                        11 => format!("Credential={}, Signature={}", c.cred("AKIAOTHERKEY", t_good, &cfg.region), BAD_SIG),
+                        12 => format!("SignedHeaders=host, Signature={}", PLACEHOLDER),
                         // (obs-text in a copy does not make it any less a copy: it still counts, first or not)
                         8 => "Bearer caf\u{e9}.def.ghi".to_string(),
                         9 => auth(&c.cred("AKIA\u{e9}KEY", t_good, &cfg.region), &signed, BAD_SIG),
